@@ -20,6 +20,8 @@ fn main() {
     let mut ctx = Ctx::from_args("C14");
     let thorough = !ctx.quick();
     if !ctx.search() {
+        // the generator of G1 as the implementation sees it
+        ctx.case("gen", true, "gen", &open::affine_str(&<midnight_curves::G1Projective as group::Group>::generator()));
         sets::run(&mut ctx);
     }
     cases::run_exhaustive(&mut ctx);
